@@ -1,5 +1,23 @@
 package main
 
-func runR_C01(c *Ctx) {}
-func runR_C09(c *Ctx) {}
-func runR_C12(c *Ctx) {}
+func runR_C01(c *Ctx) {
+	ps := c.Repo.Plugins
+	sweepHealth(c, ps...)
+	rR1(c, ps...)
+	rR2(c, ps...)
+	rR3(c, ps...)
+	rGenerating(c, ps...)
+}
+
+func runR_C09(c *Ctx) {
+	ps := c.Repo.Plugins
+	sweepHealth(c, ps...)
+	rPanics(c, ps...)
+	rR1(c, ps...)
+}
+
+func runR_C12(c *Ctx) {
+	ps := c.Repo.Plugins
+	sweepHealth(c, ps...)
+	rR2prefix(c, ps...)
+}
